@@ -137,10 +137,10 @@ pub fn load_known_findings() -> Vec<KnownFinding> {
 }
 
 struct SubStats {
-	evaluations: u64,
+	pub(crate) evaluations: u64,
 	cases: u64,
 	nontrivial_cases: u64,
-	classes: BTreeMap<String, u64>,
+	pub(crate) classes: BTreeMap<String, u64>,
 	excluded_known: BTreeMap<String, u64>,
 }
 
@@ -151,9 +151,9 @@ pub struct Ctx {
 	pub seed: u64,
 	pub level: &'static str,
 	start: Instant,
-	evaluations: u64,
+	pub(crate) evaluations: u64,
 	distinct: HashSet<u64>,
-	classes: BTreeMap<String, u64>,
+	pub(crate) classes: BTreeMap<String, u64>,
 	excluded_known: BTreeMap<String, u64>,
 	samples: Vec<Value>,
 	subs: BTreeMap<String, Value>,
@@ -161,7 +161,7 @@ pub struct Ctx {
 	pub assumptions: Vec<String>,
 	pub extra: BTreeMap<String, Value>,
 	known: Vec<KnownFinding>,
-	violations: Vec<(String, String, PathBuf)>,
+	pub(crate) violations: Vec<(String, String, PathBuf)>,
 	known_lines: Vec<String>,
 	pub exhaustive: bool,
 	replay_only: bool,
@@ -746,6 +746,73 @@ pub fn replay_with<S: SubCheck>(sc: &S, file: &Value, property: &'static str) ->
 		}
 		Some(1)
 	}
+}
+
+/// Thorough tier: a bounded libFuzzer campaign (cargo-fuzz, nightly) on a fresh copy of the committed corpus.
+/// The target calls the same oracle function as the corpus replay of the quick tier.
+pub fn fuzz_campaign(ctx: &mut Ctx, target: &str, runs: u64, max_len: u32) {
+	if ctx.tier != Tier::Thorough {
+		return;
+	}
+	let root = verif_root();
+	let fuzz_dir = root.join("harness/fuzz");
+	let work = fuzz_dir.join("work").join(target);
+	let _ = std::fs::remove_dir_all(&work);
+	let corpus = work.join("corpus");
+	let artifacts = work.join("artifacts");
+	let _ = std::fs::create_dir_all(&corpus);
+	let _ = std::fs::create_dir_all(&artifacts);
+	if let Ok(rd) = std::fs::read_dir(root.join("corpus").join(target)) {
+		for e in rd.flatten() {
+			let _ = std::fs::copy(e.path(), corpus.join(e.file_name()));
+		}
+	}
+	let t0 = Instant::now();
+	let out = std::process::Command::new("cargo")
+		.current_dir(&fuzz_dir)
+		.env("CARGO_NET_OFFLINE", "true")
+		.env("VERIF_ROOT", &root)
+		.args(["+nightly", "fuzz", "run", target, corpus.to_str().unwrap(), "--"])
+		.arg(format!("-runs={runs}"))
+		.arg(format!("-seed={}", (ctx.seed % 4_000_000_000).max(1)))
+		.arg("-len_control=0")
+		.arg(format!("-max_len={max_len}"))
+		.arg(format!("-artifact_prefix={}/", artifacts.display()))
+		.output();
+	let wall = t0.elapsed().as_secs_f64();
+	match out {
+		Err(e) => {
+			ctx.extra.insert(format!("fuzz:{target}"), json!({"skipped": format!("cargo fuzz could not be started: {e}")}));
+		}
+		Ok(o) => {
+			let text = format!("{}{}", String::from_utf8_lossy(&o.stdout), String::from_utf8_lossy(&o.stderr));
+			let done = text.lines().rev().find(|l| l.starts_with("Done ")).map(|l| l.to_string());
+			let execs: u64 = done.as_ref().and_then(|l| l.split_whitespace().nth(1)).and_then(|n| n.parse().ok()).unwrap_or(0);
+			let crash = std::fs::read_dir(&artifacts).ok().and_then(|rd| rd.flatten().map(|e| e.path()).find(|p| p.file_name().is_some_and(|n| n.to_string_lossy().starts_with("crash-"))));
+			let cov = text.lines().rev().find(|l| l.contains(" cov: ")).map(|l| l.trim().to_string());
+			ctx.extra.insert(format!("fuzz:{target}"), json!({"runs_requested": runs, "executions": execs, "wall_s": wall, "last_status_line": cov, "exit_ok": o.status.success()}));
+			if let Some(c) = crash {
+				let bytes = std::fs::read(&c).unwrap_or_default();
+				let oracle_line = text.lines().find(|l| l.contains(" oracle: ")).unwrap_or("").to_string();
+				let dir = root.join("replays");
+				let _ = std::fs::create_dir_all(&dir);
+				let name = format!("{}-fuzz-{}-{:08x}", ctx.property, target, hash_of(&bytes) & 0xffff_ffff);
+				let bin = dir.join(format!("{name}.bin"));
+				let _ = std::fs::write(&bin, &bytes);
+				let wrapper = dir.join(format!("{name}.json"));
+				let _ = std::fs::write(&wrapper, serde_json::to_string_pretty(&json!({"property": ctx.property, "subcheck": format!("fuzz:{target}"), "bytes_file": bin, "bytes_lossy": String::from_utf8_lossy(&bytes), "oracle": oracle_line})).unwrap());
+				eprintln!("[{}] libFuzzer target {target} crashed: {}", ctx.property, truncate(&oracle_line, 1500));
+				ctx.violations.push((format!("fuzz:{target}"), format!("fuzz/{target}"), wrapper));
+			} else if !o.status.success() {
+				// build failure or an environment problem: not a verdict about the property
+				ctx.extra.insert(format!("fuzz:{target}:note"), json!(truncate(&text, 1500)));
+			} else {
+				ctx.evaluations += execs;
+				*ctx.classes.entry(format!("fuzz:{target}:executions")).or_insert(0) += execs;
+			}
+		}
+	}
+	let _ = std::fs::remove_dir_all(&work);
 }
 
 /// Minimal stand-alone shrinking search used by exhaustive enumerations: nothing to do, kept for symmetry.
